@@ -2,14 +2,14 @@
 import vlib, gen, gen_prog, runlib
 from gen_prog import FLAG, run_line, parse_obs, head
 
-LEVEL = "other"
+LEVEL = "proof"
 FAMILY = "run"
 
 MANIFEST = {
- "level": "other",
- "text": "Proved about the Gallina models of runtime_dialect.rs + f_table.rs and chia_dialect.rs (Props/C30.v): for each of the 256 one-byte opcodes the standard table maps it to the same operator function as ChiaDialect's dispatch, or both treat it as unknown, except the opcodes ChiaDialect gates by flags or defines only itself (48 coinid, 60 under DISABLE_OP, 62-65), decided by computation over all 256 opcodes and all relevant flag bits; multi-byte opcodes other than the two 4-byte secp opcodes are unknown to both; hence (lock-step simulation) every program that only uses opcodes on which the two dispatch functions agree and enters no softfork guard has the same result, cost and error under both dialects with flags minus ENABLE_GC and DISABLE_OP. The model is run against the implementation under both dialects; the search compares the two dialects on the implementation.",
- "note": vlib.NOTE_COMMON + " Level 'other' until the lock-step corollary is completed for all error outcomes (Props/C30.v names what is proved).",
- "technique": "Coq proof (finite sweep over 256 opcodes x flag bits by vm_compute lifted with forallb_forall; lock-step simulation of two dialects) + model/implementation differential run + implementation search RuntimeDialect vs ChiaDialect",
+ "level": "proof",
+ "text": "Proved about the Gallina models of runtime_dialect.rs + f_table.rs and chia_dialect.rs (Props/C30.v), for every primitives record, fuel, program, environment and budget: (1) for each of the 256 one-byte opcodes the standard table maps it to the same operator function as ChiaDialect's dispatch, or both treat it as unknown, except the opcodes ChiaDialect gates by flags or defines only itself (48 coinid, 60 under DISABLE_OP without NEW_COST_MODEL, 62-65); multi-byte opcodes other than the two 4-byte secp opcodes are unknown to both. (2) RuntimeDialect hands its flag word unchanged to the operators while ChiaDialect::new clears LIMITS under NEW_COST_MODEL: every operator function of either table is proved insensitive to ENABLE_GC and, under NEW_COST_MODEL, to LIMITS and DISABLE_OP (C30_flags_unobservable, all 47 operator functions). (3) Hence by lock-step simulation through a barrier dialect (Err Unsupported on every opcode the dispatch functions do not share and on the softfork keyword): every run that does not meet the barrier has the same result, cost and error kind on RuntimeDialect{F} and ChiaDialect{F} for EVERY flag set F without ENABLE_GC and DISABLE_OP (C30_run: no further premise; the earlier exclusion of NEW_COST_MODEL+LIMITS is gone), and on RuntimeDialect{F} and ChiaDialect{F minus ENABLE_GC and DISABLE_OP} for every F that has NEW_COST_MODEL or lacks DISABLE_OP (C30_run_all; C30_run_words on 32-bit flag words). (4) For F with DISABLE_OP and without NEW_COST_MODEL the comparison with ChiaDialect{F minus DISABLE_OP} is refuted by a computed witness, reproduced on the implementation: op_div/op_divmod/op_mod read DISABLE_OP themselves (dividend over 2048 bytes), RuntimeDialect passes the bit on: (/ (q . 0x01^2049) (q . 3)) is InvalidOpArg on RuntimeDialect{DISABLE_OP} and Ok 29709 on ChiaDialect{} (C30_minus_disable_op_refuted); for that class, and every other F, RuntimeDialect{F} = ChiaDialect{F minus ENABLE_GC} outside opcode 60 is proved (C30_run_minus_gc). The model is run against the implementation under both dialects; the search compares the two dialects on the implementation under all combinations of NEW_COST_MODEL, LIMITS, DISABLE_OP, ENABLE_GC with operands at the 256/1024/2048-byte limits.",
+ "note": vlib.NOTE_COMMON + " Reading of 'the same flags minus ENABLE_GC and DISABLE_OP': as flag sets that contain neither, the statement is C30_run and is proved whole; as RuntimeDialect{F} vs ChiaDialect{F minus the two bits} it is proved for every F except DISABLE_OP without NEW_COST_MODEL, where it is false for the code as written (witness above; not a defect of RuntimeDialect, which consistently forwards its flags).",
+ "technique": "Coq proof (opcode-by-opcode comparison of the two dispatch functions; per-operator flag-insensitivity lemmas lifted through both tables with Forall over all_ops; lock-step simulation of two dialects through a barrier dialect; bit-level lemma for flag words) + model/implementation differential run + implementation search RuntimeDialect vs ChiaDialect over all flag bits with size-boundary operands",
 }
 
 TABLE = {3, 4, 5, 6, 7, 8, 9, 10, 11, 12, 13, 14, 16, 17, 18, 19, 20, 21, 22, 23, 24, 25, 26, 27, 29, 30, 32, 33, 34,
@@ -28,35 +28,129 @@ def uses_only_common(p_tt):
     return True
 
 
+GC, DIS, NCM, LIM = FLAG["ENABLE_GC"], FLAG["DISABLE_OP"], FLAG["NEW_COST_MODEL"], FLAG["LIMITS"]
+
+
+def mentions_modpow(p_tt):
+    return "a3c;" in p_tt
+
+
+def reference_flags(f):
+    """the ChiaDialect flag word RuntimeDialect{f} is compared with, following Props/C30.v:
+    f minus ENABLE_GC and DISABLE_OP (C30_run_all / C30_run_words) unless f has DISABLE_OP without
+    NEW_COST_MODEL; there op_div/op_divmod/op_mod read DISABLE_OP themselves
+    (C30_minus_disable_op_refuted), and the proved relation is with f minus ENABLE_GC on programs
+    without opcode 60 (C30_run_minus_gc) -> (chia flag word, relation name)"""
+    if (f & DIS) and not (f & NCM):
+        return f & ~GC, "minus_gc"
+    return f & ~GC & ~DIS, "minus_gc_disable_op"
+
+
+def boundary_programs(r):
+    """operands at the size limits LIMITS / DISABLE_OP test (256/257, 1024/1025, 2048/2049 bytes) for
+    every operator that reads those bits, + one 300-byte multiply (the Coq witness)"""
+    from gen_prog import op, q, i2a, G1_GEN, G2_GEN
+    out = []
+    for n in (256, 257, 300, 1024, 1025, 2048, 2049):
+        big = bytes([1 + r.getrandbits(6)]) + bytes(r.getrandbits(8) for _ in range(n - 1))
+        small = i2a(r.choice([3, 7, 255, 65537]))
+        for code in (18, 19, 20, 61):
+            out.append((op(code, q(big), q(small)), "bnd-%d-%d" % (code, n)))
+            out.append((op(code, q(small), q(big)), "bnd-%d-%d" % (code, n)))
+        out.append((op(18, q(small), q(big), q(small)), "bnd-18c-%d" % n))
+        out.append((op(60, q(big), q(small), q(i2a(1000003))), "bnd-60-%d" % n))
+        out.append((op(60, q(small), q(big), q(i2a(1000003))), "bnd-60-%d" % n))
+        out.append((op(60, q(small), q(small), q(big)), "bnd-60-%d" % n))
+        out.append((op(50, q(G1_GEN), q(big)), "bnd-50-%d" % n))
+        out.append((op(54, q(G2_GEN), q(big)), "bnd-54-%d" % n))
+    return [(gen.tt(p), gen.tt(b""), "boundary[%s]" % t) for p, t in out]
+
+
+MASKED_COMBOS = [NCM | LIM, NCM | LIM | DIS, NCM | DIS, NCM | LIM | DIS | GC, LIM, LIM | GC, DIS | LIM, DIS, DIS | GC, NCM, 0, GC]
+
+
 def run(ctx):
     r = ctx.rng
     ctx.rule = ("generated programs filtered to those mentioning none of the atoms 36, 48, 62-65 or the 4-byte secp opcodes "
-                "anywhere (conservative syntactic filter), random flag sets minus ENABLE_GC and DISABLE_OP, random budgets; run "
-                "on RuntimeDialect (standard table, quote 1, apply 2) and on ChiaDialect; non-trivial = distinct program that "
-                "succeeds on ChiaDialect")
+                "anywhere (conservative syntactic filter); random flag words over ALL 13 bits (ENABLE_GC and DISABLE_OP "
+                "included), flag-sensitive and size-boundary programs (operands of 256/257, 1024/1025, 2048/2049 bytes for "
+                "* / divmod % modpow g1_multiply g2_multiply) under every combination of NEW_COST_MODEL, LIMITS, DISABLE_OP, "
+                "ENABLE_GC; random budgets; RuntimeDialect{F} (standard table, quote 1, apply 2) is compared with "
+                "ChiaDialect{F minus ENABLE_GC and DISABLE_OP}, except that for F with DISABLE_OP and without NEW_COST_MODEL "
+                "it is compared with ChiaDialect{F minus ENABLE_GC} on programs without opcode 60 (the relations proved in "
+                "Props/C30.v); non-trivial = distinct program/flag case that succeeds on ChiaDialect")
     ctx.explanation = "see MANIFEST level text"
     ctx.proofs()
     if not ctx.build():
         return
-    n = ctx.scale(600, 10000)
+    n = ctx.scale(450, 9000)
     pool = runlib.program_pool(ctx, n, n_unknown=ctx.scale(60, 400), guards=False)
+    pool += boundary_programs(r)
     lines = []
+    slow = []
+    cur_tag = [""]
     skipped = 0
+
+    def add(p, e, f, m):
+        g, rel = reference_flags(f)
+        if rel == "minus_gc" and (mentions_modpow(p) or mentions_modpow(e)):
+            ctx.histogram("relation", "skipped:modpow-under-DISABLE_OP")
+            return
+        ctx.histogram("relation", rel)
+        ctx.histogram("masked_bits", "+".join(k for k in ("NEW_COST_MODEL", "LIMITS", "DISABLE_OP", "ENABLE_GC") if f & FLAG[k]) or "none")
+        lines.append((run_line(p, e, f=f, m=m, d="rt"), run_line(p, e, f=g, m=m, d="chia"), rel))
+        # the extracted model computes modpow on 1024..2049-byte operands slowly (unary-free but inductive Z):
+        # only a sample of those lines goes through the model; all of them are compared on the implementation
+        slow.append(cur_tag[0].startswith("boundary[bnd-60-") and int(cur_tag[0][16:-1]) >= 1024)
+
     for p, e, tag in pool:
         if not uses_only_common(p) or not uses_only_common(e):
             skipped += 1
             continue
-        f = runlib.pick_flags(r, tag, 0.2, exclude=FLAG["ENABLE_GC"] | FLAG["DISABLE_OP"])
         m = r.choice([0, 0, 11000000000, r.randrange(1, 10 ** 6)])
-        lines.append((run_line(p, e, f=f, m=m, d="rt"), run_line(p, e, f=f, m=m, d="chia")))
+        cur_tag[0] = tag
+        if tag.startswith("boundary["):
+            base = gen_prog.random_flags(r, 0.15) & ~(NCM | LIM | DIS | GC)
+            for c in MASKED_COMBOS:
+                add(p, e, base | c, 0)
+            continue
+        for f in runlib.flag_variants(r, tag, 0.2):
+            add(p, e, f, m)
+        if tag.startswith("flagsens[f=%d " % LIM) or tag.startswith("flagsens[f=%d " % DIS):
+            base = gen_prog.random_flags(r, 0.15) & ~(NCM | LIM | DIS | GC)
+            for c in r.sample(MASKED_COMBOS[:4], 2):
+                add(p, e, base | c, m)
     ctx.dist["filtered_out"] = skipped
     a = vlib.run_impl("run", [x[0] for x in lines])
     b = vlib.run_impl("run", [x[1] for x in lines])
     runlib.note_outcomes(ctx, b, "chia_outcome")
-    for (l0, l1), o0, o1 in zip(lines, a, b):
+    for (l0, l1, rel), o0, o1 in zip(lines, a, b):
         runlib.count_case(ctx, l0, nontrivial=(o1 or "").startswith("ok"))
         if head(o0) != head(o1):
-            ctx.violation("RuntimeDialect and ChiaDialect disagree on result, cost or error kind",
+            ctx.violation("RuntimeDialect and ChiaDialect disagree on result, cost or error kind (relation %s)" % rel,
                           {"family": "run", "case": l0[:3000], "impl": o0, "chia_case": l1[:3000], "chia": o1})
     runlib.check_no_panic(ctx, [x[0] for x in lines], a)
-    runlib.correspond_run(ctx, [x[0] for x in lines], name="run:runtime")
+
+    # probes: the two Coq witnesses of the DISABLE_OP-without-NEW_COST_MODEL class, on the implementation
+    from gen_prog import op, q, i2a
+    e0 = gen.tt(b"")
+    div2049 = gen.tt(op(19, q(b"\x01" * 2049), q(i2a(3))))
+    modpow = gen.tt(op(60, q(i2a(2)), q(i2a(77)), q(i2a(1000003))))
+    pl = [run_line(div2049, e0, f=DIS, d="rt"), run_line(div2049, e0, f=0, d="chia"), run_line(div2049, e0, f=DIS, d="chia"),
+          run_line(modpow, e0, f=DIS, d="rt"), run_line(modpow, e0, f=DIS, d="chia"), run_line(modpow, e0, f=0, d="chia")]
+    po = [head(o) for o in vlib.run_impl("run", pl)]
+    ctx.dist["probe_disable_op_div"] = {"rt{DISABLE_OP}": po[0][:40], "chia{}": po[1][:20], "chia{DISABLE_OP}": po[2][:40]}
+    ctx.dist["probe_disable_op_modpow"] = {"rt{DISABLE_OP}": po[3][:40], "chia{DISABLE_OP}": po[4][:40], "chia{}": po[5][:40]}
+    if po[0].startswith("err InvalidOpArg") and po[1].startswith("ok 29709 "):
+        ctx.notes.append("C30_minus_disable_op_refuted reproduced on the implementation: (/ (q . 0x01^2049) (q . 3)) is "
+                         "err InvalidOpArg on RuntimeDialect{DISABLE_OP} and ok 29709 on ChiaDialect{}: op_div reads DISABLE_OP itself")
+    else:
+        ctx.notes.append("C30_minus_disable_op_refuted NOT reproduced on this tree: %r" % (po[:3],))
+    if po[0] != po[2] or po[3] != po[5]:
+        ctx.violation("RuntimeDialect{DISABLE_OP} differs from ChiaDialect{DISABLE_OP} on div / from ChiaDialect{} on modpow",
+                      {"family": "run", "case": pl[0][:3000] if po[0] != po[2] else pl[3], "impl": po[0] if po[0] != po[2] else po[3],
+                       "chia_case": (pl[2] if po[0] != po[2] else pl[5])[:3000], "chia": po[2] if po[0] != po[2] else po[5]})
+    keep, part = ctx.scale(0.06, 0.5), ctx.scale(0.6, 1.0)
+    pr = pl + [x[0] for x, sl in zip(lines, slow) if r.random() < (keep if sl else part)]
+    pr += r.sample([x[1] for x in lines], min(len(lines), ctx.scale(150, 3000)))
+    runlib.correspond_run(ctx, pr, name="run:runtime+chia")
